@@ -55,7 +55,7 @@ func (Prop) Size(tier string) int {
 	return 60000
 }
 func (Prop) Rule() string {
-	return "plan = call tree of depth<=3 (root, mids, leaves; a callee may be used twice and from two callers) over the workload language {v = tag, add_key(k, tag|v), obs(v), obs(k), obs(get_key(k)), step(), use(), exit()} wrapped in if true/false, three-clause for and for-in, same variable and key names on both sides; every executed step() asks the simulator for a fault (none / run-time error / exit / host signal); evaluation = one run of the root; non-trivial = at least one use() executed and the trace compared is non-empty; distinct = hash of (script texts, fault sequence)"
+	return "plan = call tree of depth<=3 (root, mids, leaves; a callee may be used twice and from two callers) over the workload language {v = tag, add_key(k, tag|v), obs(v), obs(k), obs(get_key(k)), step(), a fault carrier in value position add_key(k, vstep(n)) / v = vstep(n) / obs(vstep(n)), containers built from literals or decoded from the message and edited in place, for loops whose post clause is an effectful call, use(), exit()} wrapped in if true/false, three-clause for and for-in, same variable and key names on both sides; every executed step() asks the simulator for a fault (none / run-time error / exit / host signal); evaluation = one run of the root; non-trivial = at least one use() executed and the trace compared is non-empty; distinct = hash of (script texts, fault sequence)"
 }
 func (Prop) Assumptions() []string {
 	return []string{
